@@ -292,6 +292,34 @@ def hslToRgbQ (h s l : Rat) : RgbQ :=
 def hslRoundTripQ (r g b : Rat) : RgbQ := let (h, s, l) := rgbToHslQ r g b; hslToRgbQ h s l
 
 
+/-! ### ycbcr over exact integers: which (y, cb, cr) / (r, g, b) the `double` formulas may produce
+
+  The code evaluates decimal-literal formulas in `double` and truncates (cast to uint8_t). A triple is RELATED to a pixel when each
+  component is the truncation of some real number within one unit of the last decimal place of the exact value of the formula
+  (the double evaluation is off by about 10^-13). Pure integer inequalities; the theorems of Props/C18Ycbcr.lean quantify over
+  all related triples, the driver checks the relation on what the real code produced. -/
+
+def clampI (x : Int) : Int := max 0 (min 255 x)
+
+/-- y = 16 + 0.2567 r + 0.5041 g + 0.0979 b, cb = 128 - 0.1482 r - 0.2909 g + 0.4392 b, cr = 128 + 0.4392 r - 0.3677 g - 0.0714 b (times 10^4) -/
+def ycbcr601Rel (r g b y cb cr : Int) : Bool :=
+  decide ((160000 + 2567*r + 5041*g + 979*b) - 10000 ≤ 10000*y ∧ 10000*y ≤ 160000 + 2567*r + 5041*g + 979*b
+    ∧ (1280000 - 1482*r - 2909*g + 4392*b) - 10000 ≤ 10000*cb ∧ 10000*cb ≤ 1280000 - 1482*r - 2909*g + 4392*b
+    ∧ (1280000 + 4392*r - 3677*g - 714*b) - 10000 ≤ 10000*cr ∧ 10000*cr ≤ 1280000 + 4392*r - 3677*g - 714*b)
+
+/-- y = 0.299 r + 0.587 g + 0.114 b (times 10^3), cb = 128 - 0.168736 r - 0.331264 g + 0.5 b, cr = 128 + 0.5 r - 0.418688 g - 0.081312 b (times 10^6) -/
+def ycbcr709Rel (r g b y cb cr : Int) : Bool :=
+  decide (0 ≤ y ∧ (299*r + 587*g + 114*b) - 1000 ≤ 1000*y ∧ 1000*y ≤ 299*r + 587*g + 114*b
+    ∧ (128000000 - 168736*r - 331264*g + 500000*b) - 1000000 ≤ 1000000*cb ∧ 1000000*cb ≤ 128000000 - 168736*r - 331264*g + 500000*b
+    ∧ (128000000 + 500000*r - 418688*g - 81312*b) - 1000000 ≤ 1000000*cr ∧ 1000000*cr ≤ 128000000 + 500000*r - 418688*g - 81312*b)
+
+/-- ycbcr_709 -> rgb: R = trunc(clamp(y + 1.402 e)), G = trunc(clamp(y - 0.34414 d - 0.71414 e)), B = trunc(clamp(y + 1.772 d)), d = cb - 128, e = cr - 128:
+    each output lies between the clamped floors of the exact value minus / plus one unit of the last decimal -/
+def ycbcr709BackRel (y cb cr R G B : Int) : Bool :=
+  decide (clampI ((1000*y + 1402*(cr - 128) - 1) / 1000) ≤ R ∧ R ≤ clampI ((1000*y + 1402*(cr - 128) + 1) / 1000)
+    ∧ clampI ((100000*y - 34414*(cb - 128) - 71414*(cr - 128) - 1) / 100000) ≤ G ∧ G ≤ clampI ((100000*y - 34414*(cb - 128) - 71414*(cr - 128) + 1) / 100000)
+    ∧ clampI ((1000*y + 1772*(cb - 128) - 1) / 1000) ≤ B ∧ B ≤ clampI ((1000*y + 1772*(cb - 128) + 1) / 1000))
+
 /-! ### Spec helpers -/
 def inUnit (x : Float32) : Bool := x.toFloat ≥ 0 && x.toFloat ≤ 1
 
